@@ -79,6 +79,8 @@ class Potential_Form_Registry(object):
     for d in definitions:
       if d.signature.label in potential_forms:
         raise Potential_Form_Registry_Exception("Two potential forms have the same label in [Potential-Form] section: '{0}'".format(d.signature.label))
+      if d.signature.label in self._potential_forms:
+        raise Potential_Form_Registry_Exception("The label of a [Potential-Form] entry is already in use by a table form or standard potential form: '{0}'".format(d.signature.label))
       func = _Cexptrk_Potential_Function(d)
       pf = Potential_Form(func)
       potential_forms[d.signature.label] = pf
@@ -90,8 +92,8 @@ class Potential_Form_Registry(object):
     builder = Table_Form_Builder()
 
     for d in definitions:
-      if d.name in self._potential_forms:
-        raise Potential_Form_Registry_Exception("Two potential forms have the same label in [Potential-Form] section: '{0}'".format(d.signature.label))
+      if d.name in self._potential_forms or d.name in table_forms:
+        raise Potential_Form_Registry_Exception("The name of a [Table-Form] section is already in use by another potential form: '{0}'".format(d.name))
 
       pf = builder.create_potential_form(d)
       table_forms[d.name] = pf
